@@ -56,6 +56,29 @@ Definition universe (E : env) (a b : ty) : list pair :=
 Definition sub_dec (E : env) (a b : ty) : bool :=
   mem pair pair_eqb (gfp pair pair_eqb (stepb E) (universe E a b)) (a, b).
 
+(* a faster decision procedure: the universe is the set of pairs reachable from (a,b) through premises;
+   it is used only when it is verified (by [closedb]) to be closed under premises, else the full universe is *)
+Definition prems (E : env) (p : pair) : list pair := match rule E p with VPrem qs => qs | _ => [] end.
+Fixpoint reach (f : nat) (E : env) (todo seen : list pair) : list pair :=
+  match f with
+  | O => seen
+  | S f' =>
+      match todo with
+      | [] => seen
+      | p :: r => if mem pair pair_eqb seen p then reach f' E r seen
+                  else reach f' E (prems E p ++ r) (p :: seen)
+      end
+  end.
+Definition closedb (E : env) (U : list pair) : bool :=
+  forallb (fun p => forallb (mem pair pair_eqb U) (prems E p)) U.
+Definition reach_fuel (E : env) (a b : ty) : nat :=
+  let n := length (nodes E [a; b]) in (4 * n * n + 16)%nat.
+Definition sub_dec_fast (E : env) (a b : ty) : bool :=
+  let U := reach (reach_fuel E a b) E [(a, b)] [] in
+  if closedb E U && mem pair pair_eqb U (a, b)
+  then mem pair pair_eqb (gfp pair pair_eqb (stepb E) U) (a, b)
+  else sub_dec E a b.
+
 (* the relation itself: the greatest relation closed under the rule function *)
 Definition Sub (E : env) (a b : ty) : Prop :=
   exists R : pair -> Prop, R (a, b) /\
